@@ -1,8 +1,9 @@
 #!/bin/bash
-# chain.sh <tag> <prop> [<prop> ...]: run quick checks one after the other, one log per property under /tmp/vpx
+# chain.sh <tag> <prop> [<prop> ...]: run quick checks one after the other from /verif against /repo (full runs: they rewrite the
+# evidence files), one log per property under /tmp/vpx
 tag=$1; shift
+mkdir -p /tmp/vpx
 for p in "$@"; do
-  timeout 2400 python3 /verif/vp/check.py $p --jobs 10 --keep > /tmp/vpx/run_${tag}_$p.log 2>&1
-  echo "exit=$?" >> /tmp/vpx/run_${tag}_$p.log
+  ( cd /verif && timeout 3000 python3 vp/check.py $p --tier quick > /tmp/vpx/run_${tag}_$p.log 2>&1; echo "exit=$?" >> /tmp/vpx/run_${tag}_$p.log )
 done
 echo done > /tmp/vpx/run_${tag}.done
